@@ -136,8 +136,9 @@ def check(run):
             docgen.dump(docgen.document(rng.getrandbits(32), nblocks=rng.randint(4, 9), with_noasm=(k % 2 == 0), max_len=16,
                                         multi_data=(k % 2 == 0), twin=(k % 3 == 1), failing=(k % 3 == 2)), p)
             inputs.append(p)
-        optsets = [["-greedy"], ["-greedy", "-size"]] if quick else [["-greedy"], ["-greedy", "-size"], ["-greedy", "-storage"],
-                                                                        ["-greedy", "-partition", "-length"], ["-ub-greedy", "-solver", "z3"]]
+        optsets = [["-greedy"], ["-greedy", "-size", "-push0"]] if quick else [["-greedy"], ["-greedy", "-size"], ["-greedy", "-storage"],
+                                                                                 ["-greedy", "-partition", "-length"], ["-greedy", "-push0"],
+                                                                                 ["-ub-greedy", "-solver", "z3"]]
         ntamper = 6 if quick else 25
         evaluations, nontrivial = 0, 0
         pending_pairs, pending_meta = [], []
@@ -179,8 +180,16 @@ def check(run):
                 # tampered logs
                 all_ids = sorted({x for v in log.values() for x in v})
                 orig_blocks = None
-                for t in range(ntamper if log else 1):
-                    tl, kind = tamper(log, rng, all_ids)
+                # systematic part: every byte store of the log is replaced by two POPs (up to 3 per log), then random tampering
+                systematic = []
+                for key in sorted(log):
+                    for pos, x in enumerate(log[key]):
+                        if "STORE8" in x and len(systematic) < 3:
+                            tl0 = copy.deepcopy(log)
+                            tl0[key][pos:pos + 1] = ["POP", "POP"]
+                            systematic.append((tl0, "store8-to-pops"))
+                for t in range((ntamper if log else 1) + len(systematic)):
+                    tl, kind = systematic[t] if t < len(systematic) else tamper(log, rng, all_ids)
                     if tl == log:
                         continue
                     tf = os.path.join(d, "tampered_%d.log" % t)
